@@ -299,6 +299,42 @@ func fallibleResultStoredOnlyOnSuccess(c *core.Ctx, rule string, rels ...string)
 					if !isEx {
 						ex, isEx = facts.Resolve(st.Val).(*ssa.Extract)
 					}
+					// a setter (`w.setLocation(loc)`): judged where it is called
+					if sp, isSP := facts.Resolve(st.Val).(*ssa.Parameter); isSP && !isEx && sp.Parent() == fn && fn.Parent() == nil && len(privateCallSites(fn)) > 0 {
+						for pi, q := range fn.Params {
+							if q != sp {
+								continue
+							}
+							for _, site := range privateCallSites(fn) {
+								if pi >= len(site.Common().Args) {
+									continue
+								}
+								ax, isAx := facts.Resolve(site.Common().Args[pi]).(*ssa.Extract)
+								if !isAx || ax.Index != 0 {
+									continue
+								}
+								acall, isACall := ax.Tuple.(*ssa.Call)
+								if !isACall {
+									continue
+								}
+								ares := acall.Call.Signature().Results()
+								if ares.Len() != 2 || ares.At(1).Type().String() != "error" {
+									continue
+								}
+								n++
+								okc := false
+								for _, cd := range facts.CondsAt(site.Block()) {
+									if x, isNil, ok := facts.NilCheck(cd); ok && isNil {
+										if e1, ok := facts.Resolve(x).(*ssa.Extract); ok && e1.Tuple == ax.Tuple && e1.Index == 1 {
+											okc = true
+										}
+									}
+								}
+								c.Check(okc, rule, fnName(outermost(site.Parent()))+"/"+fld+"/stored-only-on-success", site.Pos(), "the result is handed to the setter where the call is known to have succeeded", "the pointer returned by a fallible call is stored into the receiver's field "+fld+" (through "+fnName(fn)+") before its error is checked: when the call fails the field is left nil, and a later method call on the same value dereferences it and panics")
+							}
+						}
+						continue
+					}
 					if !isEx || ex.Index != 0 {
 						continue
 					}
